@@ -111,7 +111,8 @@ SCENARIO sc_tileset() { auto b = BitmapFile::CreateIndexed(8, 32, 32); for (std:
 	Stream::DynamicMemoryWriter w; Tileset::WriteCustomTileset(w, b); Bytes custom = bytes(w); observe("tileset.custom.write", custom);
 	Stream::MemoryReader r(custom.data(), custom.size()); auto back = Tileset::ReadTileset(r); observe("tileset.custom.parse.fields", dump(back)); }
 SCENARIO sc_map_parse() { Bytes in = full_map(); Stream::MemoryReader r(in.data(), in.size()); Map m = Map::ReadMap(r); observe("map.parse.fields", dump(m));
-	Stream::DynamicMemoryWriter w; m.Write(w); observe("map.parse.rewrite", bytes(w)); m.TrimTilesetSources(); m.SetLavaPossible(true, 1, 2); Stream::DynamicMemoryWriter w2; m.Write(w2); observe("map.parse.edit.rewrite", bytes(w2)); }
+	Stream::DynamicMemoryWriter w; m.Write(w); observe("map.parse.rewrite", bytes(w)); m.TrimTilesetSources(); m.SetLavaPossible(true, 0, 0);      // (the 32-column block addressing of the accessors is defined for widths of 32 and more; on this 2-wide map only column 0 of row 0 is safe to address)
+	 Stream::DynamicMemoryWriter w2; m.Write(w2); observe("map.parse.edit.rewrite", bytes(w2)); }
 SCENARIO sc_map_parse_deep() { volatile char pad[3000]; for (auto& c : pad) c = (char)PAINT; Bytes in = full_map(); Stream::MemoryReader r(in.data(), in.size()); Map m = Map::ReadMap(r); observe("map.parse.fields", dump(m)); }   // same scenario from another stack depth
 SCENARIO sc_save_parse() { Bytes in = saved_game(); Stream::MemoryReader r(in.data(), in.size()); Map m = Map::ReadSavedGame(r); observe("save.parse.fields", dump(m)); }
 SCENARIO sc_bmp_parse() { Bytes in = bmp_image(); Stream::MemoryReader r(in.data(), in.size()); auto b = BitmapFile::ReadIndexed(r); observe("bmp.parse.fields", dump(b));
